@@ -3,7 +3,6 @@
 package parser
 
 import (
-	"wa-lang.org/wa/internal/wat/ast"
 	"wa-lang.org/wa/internal/wat/token"
 )
 
@@ -44,26 +43,6 @@ func (p *parser) parseModule() {
 			p.parseModuleSection()
 		} else {
 			break
-		}
-	}
-
-	// 补充导出全局变量/函数
-	for _, g := range p.module.Globals {
-		if g.ExportName != "" {
-			p.module.Exports = append(p.module.Exports, &ast.ExportSpec{
-				Name:      g.ExportName,
-				Kind:      token.GLOBAL,
-				GlobalIdx: g.Name,
-			})
-		}
-	}
-	for _, fn := range p.module.Funcs {
-		if fn.ExportName != "" {
-			p.module.Exports = append(p.module.Exports, &ast.ExportSpec{
-				Name:    fn.ExportName,
-				Kind:    token.FUNC,
-				FuncIdx: fn.Name,
-			})
 		}
 	}
 
